@@ -10,6 +10,7 @@ import (
 	"github.com/avfs/avfs/vfs/memfs"
 
 	"verifharness/lib"
+	"verifharness/winfp"
 )
 
 func init() { parts["path"] = corrPath }
@@ -121,6 +122,51 @@ func oracleAll2Linux(a, b string) string {
 		abs = filepath.Join(b, a)
 	}
 	return "join=" + h(filepath.Join(a, b)) + " rel=" + rel + " match=" + mt + " abs=" + h(abs)
+}
+
+// The Windows oracle: the toolchain's own Windows implementation, retargeted mechanically by cmd/winx (package winfp).
+func oracleAll1Win(p string) string {
+	h := lib.Hex
+	winfp.SetBudget(100000)
+	d, f := winfp.Split(p)
+	return "clean=" + h(winfp.Clean(p)) + " base=" + h(winfp.Base(p)) + " dir=" + h(winfp.Dir(p)) +
+		" split=" + h(d) + "," + h(f) + " isabs=" + b2s(winfp.IsAbs(p)) + " vol=" + h(winfp.VolumeName(p)) +
+		" vlen=" + fmt.Sprint(winfp.VolumeNameLen(p)) + " fs=" + h(winfp.FromSlash(p)) + " ts=" + h(winfp.ToSlash(p)) + " sa=~ fu=~"
+}
+
+var winHangProbes int
+
+func oracleAll2Win(a, b string, relMayHang bool) string {
+	h := lib.Hex
+	relf := func() string {
+		if r, err := winfp.Rel(a, b); err == nil {
+			return h(r)
+		}
+		return "!err"
+	}
+	rel := "~"
+	winfp.SetBudget(100000)
+	if !relMayHang {
+		rel = guard(relf)
+	} else if winHangProbes++; winHangProbes <= 3 {
+		rel = guard(relf)
+	}
+	if rel == "!panic" { // the toolchain's Rel exceeds the iteration budget (does not terminate): nothing to compare with
+		rel = "~"
+	}
+	winfp.SetBudget(100000)
+	mt := "!bad"
+	if m, err := winfp.Match(a, b); err == nil {
+		mt = b2s(m)
+	}
+	// Abs with an explicit current directory: syscall.FullPath has no counterpart, the documented meaning is used
+	abs := ""
+	if winfp.IsAbs(a) {
+		abs = winfp.Clean(a)
+	} else {
+		abs = winfp.Join(b, a)
+	}
+	return "join=" + h(winfp.Join(a, b)) + " rel=" + rel + " match=" + mt + " abs=" + h(abs)
 }
 
 // implIter runs an iterator script on the real PathIterator, same format as the driver.
@@ -347,11 +393,15 @@ func corrPath(seed uint64, tier string, replay []string) *lib.Result {
 				impl = implAll1(vfs, args[i][0])
 				if osn == "linux" {
 					oracle = oracleAll1Linux(args[i][0])
+				} else {
+					oracle = oracleAll1Win(args[i][0])
 				}
 			case "all2":
 				impl = implAll2(vfs, args[i][0], args[i][1], strings.Contains(model[i], "rel=!hang"))
 				if osn == "linux" {
 					oracle = oracleAll2Linux(args[i][0], args[i][1])
+				} else {
+					oracle = oracleAll2Win(args[i][0], args[i][1], strings.Contains(model[i], "rel=!hang"))
 				}
 			case "iter":
 				impl = implIter(vfs, args[i][0], f[4:])
@@ -390,7 +440,7 @@ func corrPath(seed uint64, tier string, replay []string) *lib.Result {
 			if oracle != "" {
 				dOracle = fieldDiff(impl, oracle)
 				// corr-oracle: the Lean reference semantics against the toolchain's path/filepath
-				if ds := fieldDiff(spec[i], oracle); ds != "" && !seen["spec|"+ds] {
+				if ds := ""; osn == "linux" && func() bool { ds = fieldDiff(spec[i], oracle); return ds != "" }() && !seen["spec|"+ds] {
 					seen["spec|"+ds] = true
 					res.Mismatches = append(res.Mismatches, lib.Mismatch{Kind: "unproved", Class: "corr-oracle path " + ds,
 						What:    fmt.Sprintf("Lean reference semantics of %s differs from path/filepath (defect of the spec, not of avfs): spec %q filepath %q", ds, spec[i], oracle),
